@@ -227,11 +227,11 @@ def nontrivial(stream, case):
 
 
 def desc_line(d):
-    return " ".join("%s=%s" % (k, v) for k, v in sorted(d.items()) if k not in ("participant", "text", "lead", "trail"))
+    return " ".join("%s=%s" % (k, v) for k, v in sorted(d.items()) if k not in ("participant", "text", "lead", "trail", "body"))
 
 
 def desc_show(d):
-    return desc_line(d) + ("".join(" [an unknown element %s the stanza's own children]" % ("before" if k == "lead" else "after") for k in ("lead", "trail") if d.get(k)))
+    return desc_line(d) + (" [body variant %d]" % d["body"] if d.get("body") else "") + ("".join(" [an unknown element %s the stanza's own children]" % ("before" if k == "lead" else "after") for k in ("lead", "trail") if d.get(k)))
 
 
 def observe_recv(chk, case, seq):
